@@ -14,7 +14,7 @@ func init() {
 	register(&propDef{
 		ID:    "C06",
 		Level: "other",
-		Explain: "Data-race necessary conditions decided without a schedule, over all functions reachable from the per-request entry points (discovered by role): (S1) no store to memory reachable from a structure that lives across requests (types reachable from package variables, atomically published values, handler receivers and captured variables) unless the object is freshly built on the request path or a write lock is held at the store (interprocedural parameter/closure freshness, must-hold lockset); (S2) a field or variable that is accessed through sync/atomic anywhere is never read or written plainly; (S4) the round-robin picker derives its index from the result of the atomic read-modify-write, and pickers select from the weighted ring; (S5) nothing writes a table after it is passed to the publishing store; (S6) each per-request lookup loads the published table once and nothing below Table.Lookup reloads it; (B1) in GlobCache.Get the eviction of the overwritten slot precedes the insertion, the ring grows only under n < len(l), and a cache miss is re-checked under the lock; (B2) no MustCompile of a non-constant pattern and no unguarded modulus on the request path. Not decided: exact per-target pick counts under interleavings (arithmetic over histories) beyond their necessary condition S4.",
+		Explain: "Data-race necessary conditions decided without a schedule, over all functions reachable from the per-request entry points (discovered by role): (S1) no store to memory reachable from a structure that lives across requests (types reachable from package variables, atomically published values, handler receivers and captured variables) unless the object is freshly built on the request path or a write lock is held at the store (interprocedural parameter/closure freshness, must-hold lockset); (S2) a field or variable that is accessed through sync/atomic anywhere is never read or written plainly; (S3) every access to a field of the reviewed lock table (tcp.Server.listeners/conns, the gRPC pool map, the glob-cache ring, the access-log writer, the Vault PKI cache, the server registry) holds its lock, directly or in every caller; (S4) the round-robin picker derives its index from the result of the atomic read-modify-write, and pickers select from the weighted ring; (S5) nothing writes a table after it is passed to the publishing store; (S6) each per-request lookup loads the published table once and nothing below Table.Lookup reloads it; (B1) in GlobCache.Get the eviction of the overwritten slot precedes the insertion, the ring grows only under n < len(l), and a cache miss is re-checked under the lock; (B2) no MustCompile of a non-constant pattern and no unguarded modulus on the request path. Not decided: exact per-target pick counts under interleavings (arithmetic over histories) beyond their necessary condition S4.",
 		Run:   runC06,
 		Trusted: []string{"sync.Mutex/RWMutex provide mutual exclusion; sync/atomic operations are atomic; sync.Map is safe for concurrent use",
 			"net/http hands each handler invocation its own *http.Request and ResponseWriter"},
@@ -29,6 +29,8 @@ func init() {
 			{Name: "mutate table after SetTable", File: "main.go", Old: "\t\t\troute.SetTable(t)\n", New: "\t\t\troute.SetTable(t)\n\t\t\tdelete(t, \"\")\n", Expect: "C06.S5"},
 			{Name: "second GetTable in lookup closure", File: "main.go", Old: "\t\t\tif t == nil {\n\t\t\t\tstatsHandler.Noroute.Add(1)", New: "\t\t\tif t == nil {\n\t\t\t\tt = route.GetTable().Lookup(r, \"\", pick, match, globCache, cfg.GlobMatchingDisabled)\n\t\t\t}\n\t\t\tif t == nil {\n\t\t\t\tstatsHandler.Noroute.Add(1)", Expect: "C06.S6"},
 			{Name: "GetTable inside Table.lookup", File: "route/table.go", Old: "\thost = strings.ToLower(host) // routes are always added lowercase\n\tfor _, r := range t[host] {", New: "\thost = strings.ToLower(host) // routes are always added lowercase\n\tfor _, r := range GetTable()[host] {", Expect: "C06.S6"},
+			{Name: "server registry read without the lock", File: "proxy/serve.go", Old: "\tmu.Lock()\n\tsrvs := make(map[string]Server, len(servers))", New: "\tsrvs := make(map[string]Server, len(servers))\n\tmu.Lock()", Expect: "C06.S3"},
+			{Name: "connection registry touched after unlock", File: "proxy/tcp/server.go", Old: "\t\ts.conns[c] = true\n\t\ts.mu.Unlock()", New: "\t\ts.mu.Unlock()\n\t\ts.conns[c] = true", Expect: "C06.S3"},
 			{Name: "benign: RWMutex write lock", File: "route/glob_cache.go", Old: "mu sync.Mutex", New: "mu sync.RWMutex", Expect: ""},
 			{Name: "benign: explicit unlock instead of defer in picker-free code", File: "route/picker.go", Old: "n := atomic.AddUint64(&r.total, 1) - 1", New: "n := atomic.AddUint64(&r.total, 1)\n\tn--", Expect: ""},
 		},
@@ -40,6 +42,8 @@ func runC06(c *Ctx) {
 	n := sa.s1("C06.S1", nil)
 	c.atLeast("C06.S1", "stores into cross-request structures reachable from serving roots", n, 3)
 	runS2(c, "C06.S2")
+	n3 := sa.s3("C06.S3")
+	c.atLeast("C06.S3", "accesses to lock-guarded fields", n3, 10)
 	runPickers(c, "C06.S4")
 	runPublish(c, "C06.S5", "C06.S6")
 	runGlobCacheB1(c)
